@@ -21,6 +21,7 @@ def main():
         except (OSError, ValueError):
             pass
         caught = []
+        quiet = []
         for p, r in sorted(res.get("results", {}).items()):
             if r["rc"] != 0:
                 rp = r.get("replay") or {}
@@ -30,10 +31,20 @@ def main():
                 first = first.split(" | key=")[0][:70]
                 caught.append("%s %s (%s)" % (p, tier_of(res), how + (": " + first if first else "")))
             else:
-                caught.append("%s: not caught" % p)
-        title = (meta.get("title") or meta.get("description") or "")[:110].replace("|", "/")
+                quiet.append(p)
+        title = (meta.get("title") or "")
+        if not title or title.lower().startswith(("proxy-owned headers cannot", "the latched key", "complete mediation")):
+            title = meta.get("description") or title
+        title = title[:120].replace("|", "/").replace("\n", " ")
         files = ", ".join(os.path.basename(f) for f in meta.get("files", []))[:60]
-        rows.append("| %s | %s | %s | %s |" % (name, title, files, "; ".join(caught) or "not evaluated"))
+        if meta.get("kind") == "harmless":
+            verdict = ("ALARM: " + "; ".join(caught) + " — ") if caught else ""
+            verdict += "quiet: " + " ".join(quiet) if quiet else verdict or "not evaluated"
+        else:
+            verdict = "; ".join(caught) if caught else ("NOT CAUGHT" if quiet else "not evaluated")
+            if quiet and caught:
+                verdict += " (also run, quiet: %s)" % " ".join(quiet)
+        rows.append("| %s | %s | %s | %s |" % (name, title, files, verdict))
     print("| seed | change | file | caught by |")
     print("|---|---|---|---|")
     print("\n".join(rows))
